@@ -228,6 +228,10 @@ class Generator:
             raise AnchorLost("region anchors not found exactly once in %s (from:%d to:%d)" % (path, len(mf), len(mt)))
         body = text[(mf[0].end() if (frm == "^" or fromafter) else mf[0].start()):(mt[0].start() if until else mt[0].end())]
         rules = ["E1' region of %s between `%s` and `%s` wrapped as `%s` (substitution-based extraction)" % (path, frm[:50], to[:50], sig[:80])]
+        if body.rstrip().endswith(","):
+            # a field initialiser `name: EXPR,` used as the value of a function: the separating comma is dropped
+            body = body.rstrip()[:-1]
+            rules.append("E1' trailing `,` of an initialiser expression dropped")
         for c in edits:
             if c.startswith("//@rewrite"):
                 body = self._apply_cont_rewrite(c, body, rules, it)
